@@ -58,25 +58,66 @@ def anchor_files(prop: str):
     return []
 
 
-def bound_guard(prop: str, proj: Project):
+def _named_constants(proj: Project):
+    """identifier -> number for module-level and class-level `NAME = <number>` / `NAME: int = <number>` bindings of the
+    package (a threshold hidden behind a name is still a threshold). Names bound more than once to different values
+    are dropped."""
+    import ast
+    out, clash = {}, set()
+    for mod in proj.modules.values():
+        bodies = [mod.tree.body] + [c.body for c in ast.walk(mod.tree) if isinstance(c, ast.ClassDef)]
+        for body in bodies:
+            for st in body:
+                tgt = val = None
+                if isinstance(st, ast.Assign) and len(st.targets) == 1 and isinstance(st.targets[0], ast.Name):
+                    tgt, val = st.targets[0].id, st.value
+                elif isinstance(st, ast.AnnAssign) and isinstance(st.target, ast.Name) and st.value is not None:
+                    tgt, val = st.target.id, st.value
+                if tgt is None:
+                    continue
+                if isinstance(val, ast.UnaryOp) and isinstance(val.op, ast.USub) and isinstance(val.operand, ast.Constant):
+                    val = ast.Constant(-val.operand.value) if isinstance(val.operand.value, (int, float)) else val
+                if isinstance(val, ast.Constant) and isinstance(val.value, (int, float)) and not isinstance(val.value, bool):
+                    key = tgt.lstrip("_")
+                    if key in out and out[key] != val.value:
+                        clash.add(key)
+                    out[key] = val.value
+    for k in clash:
+        out.pop(k, None)
+    return out
+
+
+def bound_guard(prop: str, proj: Project, explored: int = 3):
     """Several rules decide a clause on all inputs up to a bound and argue that larger inputs add no new case. A branch
     on a numeric threshold beyond those bounds (a fast path for big inputs, a special case for size >= 5 ...) in the
-    property's anchored files invalidates that argument: the check then says so instead of passing."""
+    property's anchored files invalidates that argument: the check then says so instead of passing. `explored` is the
+    largest threshold the rules of the property have cases on both sides of (a rule module raises it through
+    Result.explored_threshold)."""
     import ast
     from .loader import src
     files = set(anchor_files(prop))
+    named = _named_constants(proj)
+
+    def value(x):
+        if isinstance(x, ast.Constant) and isinstance(x.value, (int, float)) and not isinstance(x.value, bool):
+            return x.value
+        if isinstance(x, ast.Name) and x.id.lstrip("_") in named and x.id.isupper():
+            return named[x.id.lstrip("_")]
+        if isinstance(x, ast.Attribute) and x.attr.lstrip("_") in named and x.attr.lstrip("_").isupper():
+            return named[x.attr.lstrip("_")]
+        return None
     for f in proj.all_functions():
         if f.module.relpath not in files:
             continue
         for n in ast.walk(f.node):
             if isinstance(n, ast.Compare):
                 parts = [n.left] + list(n.comparators)
-                consts = [x.value for x in parts if isinstance(x, ast.Constant) and isinstance(x.value, (int, float))
-                          and not isinstance(x.value, bool)]
-                if any(abs(c) >= 4 for c in consts) and (f.short, src(n)) not in THRESHOLD_ALLOW:
-                    raise AnalysisError(f"{f.loc(n)} {f.short}: comparison `{src(n)}` against a numeric threshold beyond the "
-                                        f"bounds this check explores - the bounded rules cannot vouch for inputs on the "
-                                        f"other side of it")
+                consts = [value(x) for x in parts]
+                consts = [c for c in consts if c is not None]
+                if any(abs(c) > explored for c in consts) and (f.short, src(n)) not in THRESHOLD_ALLOW:
+                    raise AnalysisError(f"{f.loc(n)} {f.short}: comparison `{src(n)}` against a numeric threshold "
+                                        f"({max(consts, key=abs)}) beyond the bounds this check explores ({explored}) - "
+                                        f"the bounded rules cannot vouch for inputs on the other side of it")
 
 
 def run_rules(prop: str, proj: Project, tier: str, seed: int) -> Result:
@@ -89,7 +130,7 @@ def run_rules(prop: str, proj: Project, tier: str, seed: int) -> Result:
             raise AnalysisError(f"rule {rule} matched {n} instance(s), fewer than the {floor} confirmed by hand: "
                                 f"the rule no longer sees the code it was written for")
     if not res.violations:
-        bound_guard(prop, proj)     # a clean verdict must not rest on a bound the code branches beyond
+        bound_guard(prop, proj, getattr(res, 'explored_threshold', 3))     # a clean verdict must not rest on a bound the code branches beyond
     return res
 
 
